@@ -76,7 +76,7 @@ pub fn run(outdir: &str, seed: u64, thorough: bool) -> serde_json::Value {
         attempts += 1;
         let mut r = rng.fork();
         let depth = r.range(0, 2) as u32;
-        let sql = if attempts <= targeted.len() { targeted[attempts - 1].to_string() } else if r.chance(1, 4) { unnamed_query(&mut r) } else { let mut g = QGen::new(&mut r, &w.specs); g.query(depth).0 };
+        let sql = if attempts <= targeted.len() { targeted[attempts - 1].to_string() } else if r.chance(1, 4) { unnamed_query(&mut r) } else { let mut g = QGen::new(&mut r, &w.specs); g.bool_items = true; g.query(depth).0 };
         let class = if sql.to_uppercase().contains("RANDOM()") { "random" } else { "plain" };
         let Some(rel1) = compile(&w, &sql) else { st.bump("not_compiled"); continue };
         made += 1; st.evaluations += 1; st.distinct.insert(hash_str(&sql));
